@@ -9,7 +9,7 @@ import tempfile
 import time
 import traceback
 
-from vf import common
+from vf import common, known
 
 
 class Ctx:
@@ -42,7 +42,7 @@ def run_cases(mod, ctx, case_iter, max_samples=4):
            'monitors': {}, 'case_errors': 0}
     if hasattr(mod, 'setup_worker'):
         mod.setup_worker(ctx)
-    t_end = None
+    n_unknown = [0]
     for case in case_iter:
         try:
             r = mod.run_case(case, ctx)
@@ -58,9 +58,20 @@ def run_cases(mod, ctx, case_iter, max_samples=4):
             c = c if isinstance(c, str) else json.dumps(common.jsonable(c))
             agg['classes'][c] = agg['classes'].get(c, 0) + 1
         for v in r.get('viol', ()):
-            if len(agg['violations']) < 200:
-                agg['violations'].append({'case': common.jsonable(case), 'what': v.get('what', ''),
-                                          'detail': common.jsonable(v.get('detail'))})
+            vd = {'case': common.jsonable(case), 'what': v.get('what', ''), 'detail': common.jsonable(v.get('detail'))}
+            # classify BEFORE capping, so that a frequent known mechanism cannot crowd out a new violation
+            try:
+                key = known.classify(ctx.prop, vd)
+            except Exception:
+                key = None
+            if key is not None:
+                kc = agg.setdefault('known_counts', {})
+                kc[key] = kc.get(key, 0) + 1
+                if kc[key] <= 5:
+                    agg['violations'].append(vd)
+            elif n_unknown[0] < 200:
+                n_unknown[0] += 1
+                agg['violations'].append(vd)
             else:
                 ctx.count('violations_not_stored')
         for inc in r.get('inconclusive', ()):
